@@ -112,6 +112,7 @@ class SimFS(object):
         self.written = []          # every (op index, path, text) accepted by write(), in order (oracle side)
         self.flushes = []          # (op index, path) each time a user buffer reached the kernel image
         self.rename_log = []       # (op index, old, new, size of old, new existed with data)
+        self.fsync_log = []        # (op index, path): the application-visible "flush completed" points
         self.retired = []          # inodes dropped by design (rename over an existing file, truncation)
         self.log = []
         self.faults = faults or {}  # op index -> ("oserror" | "ioerror")
@@ -211,6 +212,7 @@ class SimFS(object):
         if path in self.files:
             ino = self.files[path]
             ino.synced = len(ino.data)
+        self.fsync_log.append((self.nops - 1, path))
         self.fsyncs += 1
 
     def close(self, fd):
